@@ -256,6 +256,8 @@ STREAM_CASES = []
 
 def run(ctx):
     res = core.Result()
+    import random
+    H.set_clock(random.Random(ctx.seed * 7919 + ctx.shard))      # coarse / jittered time base: file order is the order
     rng = ctx.rng
     inv = H.inventory()
     names = inv['bsd'] + inv['mach_traps']
